@@ -17,3 +17,23 @@ func VerifC04Marker() {
 		_ = m.String()
 	}
 }
+
+// VerifC04MarkerTemplate: totality on well-formed markers `VAR OP 'LIT'` (the templates of C16), which arbitrary
+// bytes of the lengths above cannot spell: parse, then evaluate with and without a requested extra.
+func VerifC04MarkerTemplate() {
+	c16TextOnly = true
+	text, _, _ := c16Atom(0)
+	c16TextOnly = false
+	vObserveStr("marker", text)
+	m, err := parseMarker(text)
+	if err != nil {
+		vCover(true, "rejected")
+		return
+	}
+	vCover(true, "accepted")
+	if m != nil {
+		_ = m.Eval(nil)
+		_ = m.Eval(map[string]bool{"x": true})
+		_ = m.String()
+	}
+}
